@@ -2,6 +2,7 @@ package rules
 
 import (
 	"fmt"
+	"go/token"
 	"go/types"
 	"sort"
 	"strings"
@@ -650,8 +651,8 @@ func checkMemoIdentity(p *core.Prog, r *core.Result) {
 			default:
 				return
 			}
-			if !core.LoadOfField(m, pkgPickle, "Encoder", "memo") {
-				return
+			if owner, _ := fieldOfLoad(m); owner != "Encoder" {
+				return // any table of the encoder that memoize/memoized consult: the memo, or a second one beside it
 			}
 			na++
 			k := key
@@ -674,6 +675,73 @@ func checkMemoIdentity(p *core.Prog, r *core.Result) {
 		})
 	}
 	r.Floor("R7.12", na, 2, "map accesses of the memo in memoize/memoized")
+}
+
+// fieldOfLoad: v is a load of a struct field; returns the struct's and the field's name.
+func fieldOfLoad(v ssa.Value) (owner, field string) {
+	var addr ssa.Value
+	switch x := v.(type) {
+	case *ssa.UnOp:
+		if x.Op == token.MUL {
+			addr = x.X
+		}
+	case *ssa.Field:
+		addr = x
+	}
+	if addr == nil {
+		return "", ""
+	}
+	n, f := core.FieldOf(addr)
+	if n == nil {
+		return "", ""
+	}
+	return n.Obj().Name(), f
+}
+
+// checkPicklerAlwaysConsulted implements R7.15.
+func checkPicklerAlwaysConsulted(p *core.Prog, r *core.Result, rule string) {
+	n := 0
+	for _, fn := range p.ModuleFuncs() {
+		if fn.Pkg == nil || fn.Pkg.Pkg.Path() != pkgPickle {
+			continue
+		}
+		k := 0
+		for _, c := range core.Calls(fn) {
+			cc := c.Common()
+			if !cc.IsInvoke() || cc.Method.Name() != "Pickle" {
+				continue
+			}
+			if nm, ok := cc.Value.Type().(*types.Named); !ok || nm.Obj().Name() != "Pickler" {
+				continue
+			}
+			n++
+			k++
+			var other []string
+			for f := range p.FactsAt(c.(ssa.Instruction)) {
+				b, ok := f.Cond.(*ssa.BinOp)
+				if ok && (b.Op == token.NEQ || b.Op == token.EQL) {
+					isPickler := func(v ssa.Value) bool {
+						if ci, ok := v.(*ssa.ChangeInterface); ok {
+							v = ci.X
+						}
+						return core.LoadOfField(v, pkgPickle, "Encoder", "pickler") || v == cc.Value
+					}
+					if isPickler(b.X) && core.IsNilConst(b.Y) || isPickler(b.Y) && core.IsNilConst(b.X) {
+						continue
+					}
+				}
+				other = append(other, strings.TrimSpace(f.Cond.String()))
+			}
+			sort.Strings(other)
+			construct := fmt.Sprintf("%s#pickler-consulted-%d", fname(fn), k)
+			if len(other) == 0 {
+				r.OK(rule, construct, p.InstrPos(c.(ssa.Instruction)), "the pickler is asked whenever one is present")
+			} else {
+				r.Bad(rule, construct, p.InstrPos(c.(ssa.Instruction)), "the host pickler is asked only under a further condition (%s): for the values that fail it the pickler is bypassed and they are encoded structurally - a value the pickler would have turned into a host object then decodes as a plain container, depending on what the encoder has seen before", strings.Join(other, "; "))
+			}
+		}
+	}
+	r.Floor(rule, n, 1, "calls of Pickler.Pickle in package pickle")
 }
 
 // checkDecodedFromPayload implements R7.13: every value the decoder pushes is built from the payload of the opcode
